@@ -463,6 +463,7 @@ type CallSiteSpec struct {
 	Callee  string
 	Ordinal int // -1 = every ordinal
 	Asserts []*Clause
+	AssertsB []*Clause // checked before the call
 	Ghost   []GhostSet // applied after the call
 	GhostB  []GhostSet // applied before the call
 }
@@ -841,7 +842,11 @@ func (db *SpecDB) LoadSpecFile(path, pkgPath string) error {
 					if err != nil {
 						return err
 					}
-					cs.Asserts = append(cs.Asserts, c)
+					if before {
+						cs.AssertsB = append(cs.AssertsB, c)
+					} else {
+						cs.Asserts = append(cs.Asserts, c)
+					}
 				case "ghost":
 					eq := strings.Index(ar, "=")
 					for eq >= 0 && (ar[eq+1] == '=' || (eq > 0 && strings.ContainsRune("=!<>", rune(ar[eq-1])))) {
